@@ -39,6 +39,8 @@ Reading of the statements (model: `Model/RandomViews.lean`, which transcribes th
   `(i,k)` by row and column, or a multi-index — is the element of the view at that position (flat
   `i*ncols+k`, row-major flat index of the multi-index), lanes = consecutive columns.  (This is the
   code after the `fix:` commit; before it these members used `i+k` and the sum of the multi-index.)
+* `filter_teval_rank3`: the multi-index members of a mask view (after the second `fix:` commit: lane `l` is the
+  element at `(x,y,z+l)`; before it every lane held the element at `(x,y,z)`).
 
 Not in the model: index narrowing to `int` and overflow of the index arithmetic (indices are natural
 numbers), `noalias()` temporaries, right-hand sides that need evaluation into a temporary first,
@@ -331,6 +333,16 @@ theorem filter_write (ap : α → α → α) (ofInt : Int → α) (env : Nat →
     obtain ⟨hi1, hi2⟩ := List.mem_filter.1 hi
     intro e
     exact h ⟨e ▸ List.mem_range.1 hi1, e ▸ hi2⟩
+
+/-- `teval_s` / `teval` of a rank-3 mask view: the element at `(x,y,z)` where the mask is true and `0` elsewhere;
+    lane `l` of the vector form is the scalar form at `(x,y,z+l)` -/
+theorem filter_teval_rank3 (data : Nat → α) (mask : Nat → Bool) (V d0 d1 d2 x y z l : Nat) (hl : l < V) :
+    ftevalS data mask [d0, d1, d2] [x, y, z]
+      = (if mask ((x * d1 + y) * d2 + z) then data ((x * d1 + y) * d2 + z) else 0) ∧
+    (ftevalV data mask V [d0, d1, d2] [x, y, z])[l]? = some (ftevalS data mask [d0, d1, d2] [x, y, z + l]) := by
+  unfold ftevalV ftevalS
+  rw [flatIndex_rank3]
+  simp [forRange_zero_one, hl, bumpLast]
 
 /-- non-vacuity: a mask that is neither all-true nor all-false, `*=` -/
 example : (List.range 6).map (exec (· * ·) (filterInstrs (fun k => k) (fun w p => (w : Int) * 10 + p)
